@@ -45,6 +45,27 @@
 (*            load_state_dict / growth of a data-dependent grid /          *)
 (*            train-eval switches: every evaluation answers from the       *)
 (*            CURRENT grid                                                 *)
+(*   "gridpred" MODEL-level predictions of a KISS-GP exact GP whose grid   *)
+(*            is data-driven (no grid_bounds): one prediction is a short   *)
+(*            history of kernel evaluations (strategy creation on the      *)
+(*            training inputs, test/test block, test/train block), each of *)
+(*            which may re-lay the grid; the test extent takes every       *)
+(*            position relative to the training extent (well inside, a     *)
+(*            fraction of a cell inside the extremes, equal, outside) on   *)
+(*            either side: all blocks and the strategy's caches must live  *)
+(*            on ONE grid (then the prediction is the dense conditional of *)
+(*            covar_module(cat(train, test)))                              *)
+(*                                                                         *)
+(*  the access forms of a structured kernel:                               *)
+(*   "access" every structured kernel family x train/eval mode x the       *)
+(*            setting that it reads (sgpr_diagonal_correction,             *)
+(*            use_toeplitz) x x1 is x2 or not x every way of reading the   *)
+(*            kernel (full matrix, diag = True, diagonal of the lazily     *)
+(*            evaluated kernel, diagonal of the evaluated operator,        *)
+(*            variance of a distribution holding the lazy kernel): every   *)
+(*            form is the projection of ONE dense meaning, and only the    *)
+(*            diagonal correction (eval mode, setting on, x1 = x2) changes *)
+(*            that meaning                                                 *)
 (***************************************************************************)
 EXTENDS LinAlg, TLC
 
@@ -55,7 +76,12 @@ CONSTANTS Part, Instances,
           SkiKron,               \* "ski": Kronecker order of K_uu in interpolation mode: "reversed" | "forward"
           GsmKind, GsmDepth,     \* "gridsm": "fixed" | "dyn" | "plain" kernel, length of the histories
           GsmWide,               \* "gridsm": BOOLEAN, the wide alphabet (every pair of data ranges; both kinds of evaluation at every step)
-          GsmClear               \* "gridsm": what update_grid invalidates: "always" (the code) | "noninterp" (a model of a stale-cache variant)
+          GsmClear,              \* "gridsm": what update_grid invalidates: "always" (the code) | "noninterp" (a model of a stale-cache variant)
+          GpDepth,               \* "gridpred": length of the histories (predictions / strategy resets)
+          GpTight,               \* "gridpred": how far INSIDE the extent a grid was fitted to the kernel's "tight bounds" lie (0: the code;
+                                 \*             > 0: a model of a kernel that re-lays its grid for data it already covers)
+          GpOutside,             \* "gridpred": BOOLEAN, test extents that stick out of the training extent are part of the alphabet
+          AccessModel            \* "access": "code" | "shortcut" (a model of a diag = True path that skips the settings; must violate AccessOK)
 
 VARIABLES c, out
 vars == <<c, out>>
@@ -321,7 +347,22 @@ SgprAll(i) ==
       t10 == StrictM(MAddL(Ident(m), t9))
       quad == DotL(resid, abr)
       tr == RSumL([p \in 1..n |-> RDiv(gap[p], nz[p])])         \* code: (diag / noise_diag).sum()
-  IN [kzz |-> kzz, kzzi |-> kzzi, irirT |-> irirT, qxx |-> qxx, qsx |-> qsx, nys |-> nys, nsx |-> nsx, gap |-> gap, A |-> A, Ai |-> Ai, wood |-> wood,
+      \* ---- the KERNEL itself (InducingPointKernel.forward) on the training and on the test inputs, per mode, as a full matrix and
+      \* through diag = True (covar.diagonal(): row norms of the root, + the correction of LowRankRootAddedDiagLinearOperator)
+      corrx == StrictV([p \in 1..n |-> RMax0(gap[p])])
+      qss == StrictM(MMulL(rs, rsT))
+      gaps == StrictV([p \in 1..ns |-> RSub(kss[p][p], qss[p][p])])
+      corrs == StrictV([p \in 1..ns |-> RMax0(gaps[p])])
+      kxtrain == qxx                                          \* training mode: never corrected
+      kxeval == StrictM(IF i.corr THEN MAddL(qxx, Diag(corrx)) ELSE qxx)
+      kseval == StrictM(IF i.corr THEN MAddL(qss, Diag(corrs)) ELSE qss)
+      dxroot == StrictV([p \in 1..n |-> RSumL([k \in 1..m |-> RMulL(rx[p][k], rx[p][k])])])
+      dsroot == StrictV([p \in 1..ns |-> RSumL([k \in 1..m |-> RMulL(rs[p][k], rs[p][k])])])
+      dxeval == StrictV([p \in 1..n |-> IF i.corr THEN RAddL(dxroot[p], corrx[p]) ELSE dxroot[p]])
+      dseval == StrictV([p \in 1..ns |-> IF i.corr THEN RAddL(dsroot[p], corrs[p]) ELSE dsroot[p]])
+      nss == StrictM(MMulL(ksz, MMulL(kzzi, kzs)))           \* Nystrom on the test inputs
+  IN [kxtrain |-> kxtrain, kxeval |-> kxeval, kseval |-> kseval, dxroot |-> dxroot, dxeval |-> dxeval, dseval |-> dseval, nss |-> nss, gaps |-> gaps,
+      kzz |-> kzz, kzzi |-> kzzi, irirT |-> irirT, qxx |-> qxx, qsx |-> qsx, nys |-> nys, nsx |-> nsx, gap |-> gap, A |-> A, Ai |-> Ai, wood |-> wood,
       kss |-> kss, ms |-> ms, mx |-> mx, mean |-> mean, cov |-> cov, tmean |-> tmean, tcov |-> tcov, nz |-> nz,
       quad |-> quad, det |-> DetL(ab), detlemma |-> RMulL(RProdS(nz), DetL(t10)), tr |-> tr,
       kxx |-> kxx, kxz |-> kxz, sig |-> sig, sig0 |-> sig0, tm1 |-> tm1, tm2 |-> tm2, resid |-> resid]
@@ -352,6 +393,17 @@ SgprOK ==
        /\ IsPD(a.kzz)
        /\ a.irirT = a.kzzi                                                \* inv_root inv_root^T = Kzz^-1
        /\ a.qxx = a.nys /\ a.qsx = a.nsx                                  \* Nystrom: Kxz Kzz^-1 Kzx
+       \* the kernel as a matrix, per mode: Nystrom, + diag(K - Q) exactly when (eval mode, correction on); and the diag = True route
+       \* (lazy diagonal, variance of a distribution holding the lazy kernel) is the diagonal of THAT matrix - in particular the base
+       \* kernel's diagonal only when the correction is on
+       /\ a.kxtrain = a.nys
+       /\ a.kxeval = (IF c.corr THEN MAddL(a.nys, Diag([p \in 1..Len(c.X) |-> RSub(a.kxx[p][p], a.nys[p][p])])) ELSE a.nys)
+       /\ a.kseval = (IF c.corr THEN MAddL(a.nss, Diag([p \in 1..Len(c.Xs) |-> RSub(a.kss[p][p], a.nss[p][p])])) ELSE a.nss)
+       /\ \A p \in 1..Len(c.Xs) : RLe(RZero, a.gaps[p])
+       /\ \A p \in 1..Len(c.X) : a.dxroot[p] = a.kxtrain[p][p] /\ a.dxeval[p] = a.kxeval[p][p]
+                                   /\ (c.corr => a.dxeval[p] = a.kxx[p][p]) /\ (~c.corr => a.dxeval[p] = a.nys[p][p])
+       /\ \A p \in 1..Len(c.Xs) : a.dseval[p] = a.kseval[p][p]
+                                    /\ (c.corr => a.dseval[p] = a.kss[p][p]) /\ (~c.corr => a.dseval[p] = a.nss[p][p])
        /\ \A p \in 1..Len(c.X) : RLe(RZero, a.gap[p])                     \* Kxx - Qxx has a non-negative diagonal (clamp inactive)
        /\ a.gap = e.gapD                                                  \*   = the variance of f_p given u
        /\ a.wood = a.Ai                                                   \* Woodbury
@@ -363,7 +415,8 @@ SgprOK ==
        /\ RLe(RZero, a.tr)
        /\ RAddL(a.quad, a.tr) = e.elbo2                                    \* the collapsed bound IS the ELBO at the optimal q(u): rational part
        /\ e.detelbo = RProdS(a.nz)                                        \*   and log part: det(Qxx + N) = det(N) det(Kzz) / det(S)
-SgprOut(i) == LET a == SgprAll(i) IN [mean |-> a.mean, cov |-> a.cov, quad |-> a.quad, det |-> a.det, tr |-> a.tr, nz |-> a.nz]
+SgprOut(i) == LET a == SgprAll(i) IN [mean |-> a.mean, cov |-> a.cov, quad |-> a.quad, det |-> a.det, tr |-> a.tr, nz |-> a.nz,
+                                      kxtrain |-> a.kxtrain, kxeval |-> a.kxeval, kseval |-> a.kseval, gap |-> a.gap, gaps |-> a.gaps]
 
 \* ============================== "rff" ============================================================
 \* instance: F (n x f), Fs (ns x f) integer feature matrices (z / sqrt(D) scaled to integers), y, s2, mc
@@ -529,6 +582,90 @@ GsmOK ==
     /\ (c.kind = "dyn" /\ c.init => \A k \in 1..Len(out) : (out[k].a = "eval" /\ \A j \in (k + 1)..Len(out) : out[j].a # "eval") =>
                                       GsmCovers(c.grid, GsmHull(GsmRange(out[k].x[1]), GsmRange(out[k].x[2]))))     \* the grid covers the last data
 
+\* ============================== "gridpred" =======================================================
+\* MODEL-level predictions of an exact GP whose kernel is a GridInterpolationKernel without grid_bounds ("dyn" above).  Extents in
+\* abstract units; the training inputs span GpTrain.  A test set is described by the position of its lower and of its upper extreme
+\* relative to the training extent: "in" (well inside), "sl" (strictly inside, within a fraction of a grid cell of the training
+\* extreme), "eq" (equal to it), "out" (outside).  The kernel re-lays its grid over the data of an evaluation iff these are not covered by
+\* the tight bounds of the current grid (= the extent the grid was fitted to when GpTight = 0).
+\* One prediction in eval mode (ExactGP.__call__ / InterpolatedPredictionStrategy.exact_prediction):
+\*   (1) only when the model has no strategy: K(train, train) is evaluated, the strategy's caches (grid space) are computed from it;
+\*   (2) the test/test block is evaluated (data: the test inputs);  (3) the test/train block (data: test and training inputs).
+\* The reference is covar_module(cat(train, test)) evaluated after the prediction.  train(); eval() drops the strategy.
+\* Property: the caches, both blocks and the reference live on ONE grid.  (On one grid the interpolation strategy IS the dense conditional:
+\* parts "wiski" and the float cells.)  Known finding C03/ext/gridi: the strategy survives a grid move, which test extents outside
+\* the training extent cause - those histories (clean = FALSE until the next reset) are a class of their own (GpAllOK is violated).
+GpTrain == <<0, 100>>
+GpLo(p) == CASE p = "in" -> 30 [] p = "sl" -> 1 [] p = "eq" -> 0 [] OTHER -> 0 - 20
+GpHi(p) == CASE p = "in" -> 70 [] p = "sl" -> 99 [] p = "eq" -> 100 [] OTHER -> 120
+GpPos == IF GpOutside THEN {"in", "sl", "eq", "out"} ELSE {"in", "sl", "eq"}
+GpCovered(g, h) == g # GsmNone /\ g[1] + GpTight <= h[1] /\ h[2] <= g[2] - GpTight
+GpLay(g, h) == IF GpCovered(g, h) THEN g ELSE h              \* the grid after an evaluation on data of extent h
+GpPredict(pl, pu) ==
+  LET e == <<GpLo(pl), GpHi(pu)>>
+      j == GsmHull(e, GpTrain)
+      g0 == IF c.strat = GsmNone THEN GpLay(c.grid, GpTrain) ELSE c.grid
+      s1 == IF c.strat = GsmNone THEN g0 ELSE c.strat
+      g1 == GpLay(g0, e)
+      g2 == GpLay(g1, j)
+      g3 == GpLay(g2, j)
+      clean == c.clean /\ pl # "out" /\ pu # "out"
+  IN /\ c' = [c EXCEPT !.grid = g2, !.strat = s1, !.clean = clean]
+     /\ GsmLog([a |-> "predict", pos |-> <<pl, pu>>, gs |-> s1, gtt |-> g1, gtx |-> g2, gref |-> g3, clean |-> clean])
+GpReset ==
+  /\ c' = [c EXCEPT !.strat = GsmNone, !.clean = TRUE]
+  /\ GsmLog([a |-> "reset"])
+GpNext ==
+  \/ /\ Len(out) < GpDepth
+     /\ \/ \E pl \in GpPos, pu \in GpPos : GpPredict(pl, pu)
+        \/ GpReset
+  \/ Len(out) >= GpDepth /\ UNCHANGED vars
+GpInit == [grid : {GsmNone}, strat : {GsmNone}, clean : {TRUE}]
+GpOneGrid(e) == e.gs = e.gtt /\ e.gtt = e.gtx /\ e.gtx = e.gref
+GpOK    == Part = "gridpred" => \A k \in 1..Len(out) : (out[k].a = "predict" /\ out[k].clean) => GpOneGrid(out[k])
+GpAllOK == Part = "gridpred" => \A k \in 1..Len(out) : out[k].a = "predict" => GpOneGrid(out[k])
+\* the grid always covers the last data it was asked about
+GpCoverOK == Part = "gridpred" => \A k \in 1..Len(out) : out[k].a = "predict" =>
+                 GsmCovers(out[k].gref, GsmHull(<<GpLo(out[k].pos[1]), GpHi(out[k].pos[2])>>, GpTrain))
+
+\* ============================== "access" =========================================================
+\* Every way of READING a structured kernel is a projection of one dense meaning.  Forms:
+\*   "full"      kernel(x1, x2).to_dense()
+\*   "diagarg"   kernel(x1, x2, diag = True)
+\*   "lazydiag"  kernel(x1, x2).diagonal() on the lazily evaluated kernel (LazyEvaluatedKernelTensor calls forward(diag = True))
+\*   "evaldiag"  kernel(x1, x2).evaluate_kernel().diagonal() (the structured operator's own diagonal)
+\*   "variance"  MultivariateNormal(0, kernel(x)).variance (reads the lazy diagonal)
+\* Stub algebra (labelled integers): the family's matrix on three points is A; the inducing-point families have a gap
+\* G = diag(K - Q) > 0; the diagonal correction belongs to the meaning exactly when (eval mode, setting on, x1 = x2).
+\* use_toeplitz selects an assembly, never the meaning; train / eval selects a cache, never the meaning (but for the correction).
+AccessForms == {"full", "diagarg", "lazydiag", "evaldiag", "variance"}
+AccessFamilies == {"nystrom", "mtask-nystrom", "ski", "ski-dyn", "grid", "mtask", "lcm", "index", "index-product", "rff"}
+AccessInducing(f) == f \in {"nystrom", "mtask-nystrom"}
+AccessSetting(f) == IF AccessInducing(f) THEN "sgpr_diagonal_correction" ELSE IF f \in {"ski", "ski-dyn", "grid"} THEN "use_toeplitz" ELSE "none"
+AccessCases == {k \in [fam : AccessFamilies, mode : {"train", "eval"}, on : BOOLEAN, same : BOOLEAN, form : AccessForms] :
+                  /\ (k.form = "variance" => k.same)                               \* a distribution holds a square PSD matrix
+                  /\ (AccessSetting(k.fam) = "none" => k.on)                       \* no setting: one value
+                  /\ (AccessInducing(k.fam) /\ k.mode = "train" => k.same)}        \* documented: the training mode wants x1 = x2
+AccN == 3
+AccA(k) == IMk(AccN, AccN, LAMBDA i, j : IF k.same THEN 10 * (IF i < j THEN i ELSE j) + (IF i < j THEN j ELSE i) ELSE 100 + 10 * i + j)
+AccG(i) == i
+AccCorrected(k) == AccessInducing(k.fam) /\ k.mode = "eval" /\ k.on /\ k.same
+AccMeaning(k) == IMk(AccN, AccN, LAMBDA i, j : AccA(k)[i][j] + (IF AccCorrected(k) /\ i = j THEN AccG(i) ELSE 0))
+AccDiagOf(M) == [i \in 1..AccN |-> M[i][i]]
+\* the code: forward assembles the covariance under its own reading of mode and setting and takes the diagonal of THAT for diag = True
+AccForward(k, diag) ==
+  LET covar == IMk(AccN, AccN, LAMBDA i, j : AccA(k)[i][j] + (IF AccessInducing(k.fam) /\ k.mode # "train" /\ k.on /\ k.same /\ i = j THEN AccG(i) ELSE 0))
+  IN IF ~diag THEN covar
+     ELSE IF AccessModel = "shortcut" /\ AccessInducing(k.fam) /\ k.mode # "train" /\ k.same THEN [i \in 1..AccN |-> AccA(k)[i][i] + AccG(i)]   \* "the base diagonal"
+     ELSE AccDiagOf(covar)
+AccRoute(f) == IF f \in {"full", "evaldiag"} THEN "forward-full" ELSE "forward-diag"
+AccObserved(k) == CASE k.form = "full" -> AccForward(k, FALSE)
+                    [] k.form = "evaldiag" -> AccDiagOf(AccForward(k, FALSE))
+                    [] OTHER -> AccForward(k, TRUE)
+AccProject(k) == IF k.form = "full" THEN AccMeaning(k) ELSE AccDiagOf(AccMeaning(k))
+AccessOK == Part = "access" => AccObserved(c) = AccProject(c)
+AccessOut(k) == [proj |-> IF k.form = "full" THEN "full" ELSE "diag", corrected |-> AccCorrected(k), route |-> AccRoute(k.form), setting |-> AccessSetting(k.fam)]
+
 \* ============================== machine ==========================================================
 Init ==
   /\ CASE Part = "kron"  -> c \in KronCases
@@ -536,12 +673,15 @@ Init ==
        [] Part = "grid"  -> c \in GridCases
        [] Part = "ski"   -> c \in SKICases
        [] Part = "gridsm" -> c \in GsmInit
+       [] Part = "gridpred" -> c \in GpInit
+       [] Part = "access" -> c \in AccessCases
        [] OTHER          -> c \in Instances
   /\ out = CASE Part = "kron"  -> LCMDense(c.Q, c.n, c.m, c.t, c.r)
              [] Part = "index" -> [index |-> IndexDense(c), hadamard |-> HadamardDense(c)]
              [] Part = "grid"  -> GridDense(c.sizes, c.toep)
              [] Part = "sgpr"  -> SgprOut(c)
+             [] Part = "access" -> AccessOut(c)
              [] OTHER          -> <<>>
-Next == IF Part = "gridsm" THEN GsmNext ELSE UNCHANGED vars
+Next == IF Part = "gridsm" THEN GsmNext ELSE IF Part = "gridpred" THEN GpNext ELSE UNCHANGED vars
 Spec == Init /\ [][Next]_vars
 =============================================================================
